@@ -2,7 +2,11 @@
    section is read back by the model XML reader (XmlParseDefs.v) as the original string.
    Lemmas only; the definitions are in GenSer / SerUtfDefs / SerEscDefs / XmlParseDefs.
    The generated tables are consumed through finite sweeps proved by vm_compute and lifted with
-   forallb_forall: a changed table entry re-checks and, if wrong, breaks the proof. *)
+   forallb_forall: a changed table entry re-checks and, if wrong, breaks the proof.
+   Definitions after the library repair: the UTF-16 writer handles surrogate pairs itself (u16_at,
+   unpaired surrogates throw err_surrogate); CR / NEL / LSEP / reference-only characters in a CDATA section
+   leave the section and are written as references (cdata_roundtrip is a full theorem); characters that
+   an encoding cannot represent inside a comment are an exception (comment_* theorems). *)
 From Coq Require Import NArith List Bool Lia ZifyBool ZifyNat ZifyN.
 Require Import XV.SerDefs XV.XmlParseDefs.
 Import ListNotations.
@@ -303,27 +307,44 @@ Qed.
 Definition cs (v11 : bool) (c : N) : list item := fst (content_step fam_utf16 v11 c []).
 Definition ats (v11 : bool) (c : N) : list item := fst (attr_step fam_utf16 v11 c []).
 
-Lemma content_step_16 : forall v11 c r, content_step fam_utf16 v11 c r = (cs v11 c, false).
+Lemma u16_at_plain : forall c r, x_high c = false -> x_low c = false -> u16_at c r = (u16_unit c, false).
 Proof.
-  intros v11 c r. unfold cs, content_step, normalized_big. cbn [f_at fam_utf16].
+  intros c r Hh Hl. unfold u16_at. change (is_high c) with (x_high c). change (is_low c) with (x_low c).
+  rewrite Hh, Hl. reflexivity.
+Qed.
+
+Lemma u16_at_pair : forall hi lo r, x_high hi = true -> x_low lo = true ->
+  u16_at hi (lo :: r) = (u16_unit hi ++ u16_unit lo, true).
+Proof.
+  intros hi lo r Hh Hl. unfold u16_at. change (is_high hi) with (x_high hi). change (is_low lo) with (x_low lo).
+  rewrite Hh, Hl. reflexivity.
+Qed.
+
+Lemma content_step_16 : forall v11 c r, x_high c = false -> x_low c = false ->
+  content_step fam_utf16 v11 c r = (cs v11 c, false).
+Proof.
+  intros v11 c r Hh Hl. unfold cs, content_step, normalized_big. cbn [f_at fam_utf16].
+  rewrite !(u16_at_plain c _ Hh Hl).
   destruct (p_range v11 c); [destruct (v11 && (c =? 8232)); reflexivity|].
   destruct (negb (p_content v11 c)); reflexivity.
 Qed.
 
-Lemma attr_step_16 : forall v11 c r, attr_step fam_utf16 v11 c r = (ats v11 c, false).
+Lemma attr_step_16 : forall v11 c r, x_high c = false -> x_low c = false ->
+  attr_step fam_utf16 v11 c r = (ats v11 c, false).
 Proof.
-  intros v11 c r. unfold ats, attr_step, normalized_big. cbn [f_at fam_utf16].
+  intros v11 c r Hh Hl. unfold ats, attr_step, normalized_big. cbn [f_at fam_utf16].
+  rewrite !(u16_at_plain c _ Hh Hl).
   destruct (p_range v11 c); [destruct (v11 && (c =? 8232)); reflexivity|].
   destruct (negb (p_attribute v11 c)); reflexivity.
 Qed.
 
-Lemma write_content_cons : forall v11 c r,
+Lemma write_content_cons : forall v11 c r, x_high c = false -> x_low c = false ->
   write_content fam_utf16 v11 (c :: r) = cs v11 c ++ write_content fam_utf16 v11 r.
-Proof. intros. unfold write_content. cbn [char_loop]. rewrite content_step_16. reflexivity. Qed.
+Proof. intros. unfold write_content. cbn [char_loop]. rewrite content_step_16 by assumption. reflexivity. Qed.
 
-Lemma write_attr_cons : forall v11 c r,
+Lemma write_attr_cons : forall v11 c r, x_high c = false -> x_low c = false ->
   write_attr_string fam_utf16 v11 (c :: r) = ats v11 c ++ write_attr_string fam_utf16 v11 r.
-Proof. intros. unfold write_attr_string. cbn [char_loop]. rewrite attr_step_16. reflexivity. Qed.
+Proof. intros. unfold write_attr_string. cbn [char_loop]. rewrite attr_step_16 by assumption. reflexivity. Qed.
 
 (* sweeps over the generated tables *)
 Definition res_shape (lit : bool -> N -> bool) (v11 : bool) (c : N) (r : res (list N)) : bool :=
@@ -346,14 +367,16 @@ Proof. vm_compute. reflexivity. Qed.
 
 (* above the table: literally, except U+2028 in 1.1 *)
 Lemma cs_high : forall v11 c, p_range v11 c = true -> (v11 && (c =? 8232)) = false ->
-  payload (cs v11 c) = Ok [c].
+  x_high c = false -> x_low c = false -> payload (cs v11 c) = Ok [c].
 Proof.
-  intros v11 c H1 H2. unfold cs, content_step, normalized_big. rewrite H1, H2. reflexivity.
+  intros v11 c H1 H2 Hh Hl. unfold cs, content_step, normalized_big. rewrite H1, H2.
+  cbn [f_at fam_utf16]. rewrite (u16_at_plain c _ Hh Hl). reflexivity.
 Qed.
 Lemma ats_high : forall v11 c, p_range v11 c = true -> (v11 && (c =? 8232)) = false ->
-  payload (ats v11 c) = Ok [c].
+  x_high c = false -> x_low c = false -> payload (ats v11 c) = Ok [c].
 Proof.
-  intros v11 c H1 H2. unfold ats, attr_step, normalized_big. rewrite H1, H2. reflexivity.
+  intros v11 c H1 H2 Hh Hl. unfold ats, attr_step, normalized_big. rewrite H1, H2.
+  cbn [f_at fam_utf16]. rewrite (u16_at_plain c _ Hh Hl). reflexivity.
 Qed.
 
 Lemma high_lit : forall v11 c, p_range v11 c = true -> (v11 && (c =? 8232)) = false ->
@@ -408,6 +431,22 @@ Proof.
   destruct v11; lia.
 Qed.
 
+Lemma write_content_pair : forall v11 hi lo r, x_high hi = true -> x_low lo = true ->
+  write_content fam_utf16 v11 (hi :: lo :: r) = (u16_unit hi ++ u16_unit lo) ++ write_content fam_utf16 v11 r.
+Proof.
+  intros v11 hi lo r Hh Hl. destruct (sur_high v11 hi (or_introl Hh)) as (A1 & A2 & _).
+  unfold write_content. cbn [char_loop]. unfold content_step at 1. rewrite A1. unfold normalized_big.
+  rewrite A2. cbn [f_at fam_utf16]. rewrite (u16_at_pair _ _ _ Hh Hl). reflexivity.
+Qed.
+
+Lemma write_attr_pair : forall v11 hi lo r, x_high hi = true -> x_low lo = true ->
+  write_attr_string fam_utf16 v11 (hi :: lo :: r) = (u16_unit hi ++ u16_unit lo) ++ write_attr_string fam_utf16 v11 r.
+Proof.
+  intros v11 hi lo r Hh Hl. destruct (sur_high v11 hi (or_introl Hh)) as (A1 & A2 & _).
+  unfold write_attr_string. cbn [char_loop]. unfold attr_step at 1. rewrite A1. unfold normalized_big.
+  rewrite A2. cbn [f_at fam_utf16]. rewrite (u16_at_pair _ _ _ Hh Hl). reflexivity.
+Qed.
+
 (* ---- 1. text nodes ------------------------------------------------------------------------------------ *)
 Lemma content_main : forall v11 s, wf_text v11 s = true ->
   exists bs, payload (write_content fam_utf16 v11 s) = Ok bs /\ forallb (okunit v11) bs = true /\
@@ -418,14 +457,14 @@ Proof.
   - intros hi lo r Hh Hl Hw (bs & Hp & Hok & Hs).
     destruct (sur_high v11 hi (or_introl Hh)) as (A1 & A2 & A3).
     destruct (sur_high v11 lo (or_intror Hl)) as (B1 & B2 & B3).
-    exists (hi :: lo :: bs). rewrite !write_content_cons, !payload_app.
-    rewrite (cs_high _ _ A1 A2), (cs_high _ _ B1 B2), Hp. repeat split.
+    exists (hi :: lo :: bs). rewrite write_content_pair, payload_app by assumption.
+    cbn [u16_unit app payload]. rewrite Hp. repeat split.
     + cbn [forallb]. rewrite A3, B3, Hok. reflexivity.
     + intros [|f] Hf; cbn [length] in Hf; [clear -Hf; lia|]. rewrite scan_content_pair by assumption.
       rewrite Hs by (clear -Hf; lia). reflexivity.
   - intros c r Hh Hl Hx Hw (bs & Hp & Hok & Hs).
     destruct (cs_shape v11 c Hh Hl Hx) as (e & He & Hsh).
-    exists (e ++ bs). rewrite write_content_cons, payload_app, He, Hp. repeat split.
+    exists (e ++ bs). rewrite write_content_cons, payload_app, He, Hp by assumption. repeat split.
     + rewrite forallb_app, Hok, (shape_okunits _ _ _ _ (lit_content_ok v11) Hsh). reflexivity.
     + intros [|f] Hf; [clear -Hf; lia|]. rewrite (scan_content_shape _ _ _ _ _ Hsh Hok).
       rewrite Hs; [reflexivity|]. rewrite app_length in Hf.
@@ -452,14 +491,14 @@ Proof.
   - intros hi lo r Hh Hl Hw (bs & Hp & Hok & Hs).
     destruct (sur_high v11 hi (or_introl Hh)) as (A1 & A2 & A3).
     destruct (sur_high v11 lo (or_intror Hl)) as (B1 & B2 & B3).
-    exists (hi :: lo :: bs). rewrite !write_attr_cons, !payload_app.
-    rewrite (ats_high _ _ A1 A2), (ats_high _ _ B1 B2), Hp. repeat split.
+    exists (hi :: lo :: bs). rewrite write_attr_pair, payload_app by assumption.
+    cbn [u16_unit app payload]. rewrite Hp. repeat split.
     + cbn [forallb]. rewrite A3, B3, Hok. reflexivity.
     + intros [|f] Hf; cbn [length] in Hf; [clear -Hf; lia|]. rewrite scan_attr_pair by assumption.
       rewrite Hs by (clear -Hf; lia). reflexivity.
   - intros c r Hh Hl Hx Hw (bs & Hp & Hok & Hs).
     destruct (ats_shape v11 c Hh Hl Hx) as (e & He & Hsh).
-    exists (e ++ bs). rewrite write_attr_cons, payload_app, He, Hp. repeat split.
+    exists (e ++ bs). rewrite write_attr_cons, payload_app, He, Hp by assumption. repeat split.
     + rewrite forallb_app, Hok, (shape_okunits _ _ _ _ (lit_attr_ok v11) Hsh). reflexivity.
     + intros [|f] Hf; [clear -Hf; lia|]. rewrite (scan_attr_shape _ _ _ _ _ Hsh).
       rewrite Hs; [reflexivity|]. rewrite app_length in Hf.
@@ -487,39 +526,95 @@ Definition chk_forb (v11 : bool) (c : N) : bool :=
 Lemma sweep_forb : forall v11, forallb (chk_forb v11) (upto (sp_last v11)) = true.
 Proof. intros [|]; vm_compute; reflexivity. Qed.
 
-Lemma chk_forb_all : forall v11 c, chk_forb v11 c = true.
+Lemma chk_forb_all : forall v11 c, x_high c = false -> x_low c = false -> chk_forb v11 c = true.
 Proof.
-  intros v11 c. destruct (p_range v11 c) eqn:Er.
+  intros v11 c Hh Hl. destruct (p_range v11 c) eqn:Er.
   - unfold chk_forb. assert (Hf : p_forbidden v11 c = false).
     { unfold p_forbidden. unfold p_range in Er. rewrite Er. reflexivity. }
     rewrite Hf. destruct (v11 && (c =? 8232)) eqn:E8.
     + assert (v11 = true /\ c = 8232) as [-> ->] by lia. vm_compute. reflexivity.
-    + rewrite (cs_high _ _ Er E8). reflexivity.
+    + rewrite (cs_high _ _ Er E8 Hh Hl). reflexivity.
   - apply (sweep _ _ (sweep_forb v11)). unfold p_range in Er. lia.
 Qed.
 
-Theorem forbidden_char_fails : forall v11 s, (exists c, In c s /\ p_forbidden v11 c = true) ->
-  payload (write_content fam_utf16 v11 s) = Thrown err_forbidden.
+(* surrogates only in pairs (the UTF-16 writer throws err_surrogate otherwise) *)
+Fixpoint sur_paired (s : list N) : bool :=
+  match s with
+  | [] => true
+  | c :: r => if x_high c then match r with lo :: r' => x_low lo && sur_paired r' | [] => false end
+              else if x_low c then false else sur_paired r
+  end.
+
+Lemma sur_paired_ind' (P : list N -> Prop) :
+  P [] ->
+  (forall hi lo r, x_high hi = true -> x_low lo = true -> sur_paired r = true -> P r -> P (hi :: lo :: r)) ->
+  (forall c r, x_high c = false -> x_low c = false -> sur_paired r = true -> P r -> P (c :: r)) ->
+  forall s, sur_paired s = true -> P s.
 Proof.
-  intros v11 s. induction s as [|a r IH]; intros (c & Hin & Hf); [destruct Hin|].
-  rewrite write_content_cons, payload_app. pose proof (chk_forb_all v11 a) as Ha. unfold chk_forb in Ha.
-  destruct (payload (cs v11 a)) as [e| |k]; try discriminate.
-  - destruct Hin as [->|Hin]; [rewrite Hf in Ha; discriminate|].
-    rewrite IH; [reflexivity|]. exists c. split; assumption.
-  - apply N.eqb_eq in Ha. subst k. reflexivity.
+  intros H0 Hp Hc s.
+  assert (G : forall n s, (length s <= n)%nat -> sur_paired s = true -> P s).
+  { induction n as [|n IH]; intros [|c r] Hl Hw; try exact H0; cbn [length] in Hl; try lia.
+    cbn [sur_paired] in Hw. destruct (x_high c) eqn:Eh.
+    - destruct r as [|lo r']; [discriminate|]. apply andb_true_iff in Hw. destruct Hw as [Hlo Hw].
+      apply Hp; auto. apply IH; auto. cbn [length] in Hl. lia.
+    - destruct (x_low c) eqn:El; [discriminate|]. apply Hc; auto. apply IH; auto. lia. }
+  intros Hw. apply (G (length s)); auto.
 Qed.
 
-(* the only exception of the UTF-16 family in content is err_forbidden *)
-Theorem content_no_other_exception : forall v11 s,
+Lemma wf_text_paired : forall v11 s, wf_text v11 s = true -> sur_paired s = true.
+Proof.
+  intros v11. apply wf_text_ind'; [reflexivity| |].
+  - intros hi lo r Hh Hl _ IH. cbn [sur_paired]. rewrite Hh, Hl, IH. reflexivity.
+  - intros c r Hh Hl _ _ IH. cbn [sur_paired]. rewrite Hh, Hl, IH. reflexivity.
+Qed.
+
+(* NEW DEFINITIONS: an unpaired surrogate is an exception of its own (err_surrogate), so the statement
+   needs the pairing guard; see forbidden_char_fails_unpaired_refuted *)
+Theorem forbidden_char_fails : forall v11 s, sur_paired s = true ->
+  (exists c, In c s /\ p_forbidden v11 c = true) ->
+  payload (write_content fam_utf16 v11 s) = Thrown err_forbidden.
+Proof.
+  intros v11. apply (sur_paired_ind' (fun s => (exists c, In c s /\ p_forbidden v11 c = true) ->
+    payload (write_content fam_utf16 v11 s) = Thrown err_forbidden)).
+  - intros (c & [] & _).
+  - intros hi lo r Hh Hl _ IH (c & Hin & Hf).
+    rewrite write_content_pair, payload_app by assumption. cbn [u16_unit app payload].
+    assert (Hr : exists c, In c r /\ p_forbidden v11 c = true).
+    { exists c. split; [|exact Hf]. destruct Hin as [->|[->|Hin]]; [| |exact Hin]; exfalso.
+      - destruct (sur_high v11 c (or_introl Hh)) as (A1 & _ & _). unfold p_forbidden in Hf.
+        unfold p_range in A1. rewrite A1 in Hf. discriminate.
+      - destruct (sur_high v11 c (or_intror Hl)) as (A1 & _ & _). unfold p_forbidden in Hf.
+        unfold p_range in A1. rewrite A1 in Hf. discriminate. }
+    rewrite (IH Hr). reflexivity.
+  - intros a r Hh Hl _ IH (c & Hin & Hf).
+    rewrite write_content_cons, payload_app by assumption.
+    pose proof (chk_forb_all v11 a Hh Hl) as Ha. unfold chk_forb in Ha.
+    destruct (payload (cs v11 a)) as [e| |k]; try discriminate.
+    + destruct Hin as [->|Hin]; [rewrite Hf in Ha; discriminate|].
+      rewrite IH; [reflexivity|]. exists c. split; assumption.
+    + apply N.eqb_eq in Ha. subst k. reflexivity.
+Qed.
+
+Theorem forbidden_char_fails_unpaired_refuted :
+  p_forbidden false 0 = true /\
+  payload (write_content fam_utf16 false [55296; 0]) = Thrown err_surrogate.
+Proof. vm_compute. split; reflexivity. Qed.
+
+(* with paired surrogates the only exception of the UTF-16 family in content is err_forbidden *)
+Theorem content_no_other_exception : forall v11 s, sur_paired s = true ->
   match payload (write_content fam_utf16 v11 s) with
   | Ok _ => True | Thrown k => k = err_forbidden | Oob => False
   end.
 Proof.
-  intros v11 s. induction s as [|a r IH]; [exact I|].
-  rewrite write_content_cons, payload_app. pose proof (chk_forb_all v11 a) as Ha. unfold chk_forb in Ha.
-  destruct (payload (cs v11 a)) as [e| |k]; try discriminate.
-  - destruct (payload (write_content fam_utf16 v11 r)); auto.
-  - apply N.eqb_eq in Ha. exact Ha.
+  intros v11. apply sur_paired_ind'.
+  - exact I.
+  - intros hi lo r Hh Hl _ IH. rewrite write_content_pair, payload_app by assumption.
+    cbn [u16_unit app payload]. destruct (payload (write_content fam_utf16 v11 r)); auto.
+  - intros a r Hh Hl _ IH. rewrite write_content_cons, payload_app by assumption.
+    pose proof (chk_forb_all v11 a Hh Hl) as Ha. unfold chk_forb in Ha.
+    destruct (payload (cs v11 a)) as [e| |k]; try discriminate.
+    + destruct (payload (write_content fam_utf16 v11 r)); auto.
+    + apply N.eqb_eq in Ha. exact Ha.
 Qed.
 
 Lemma sweep_forb_1_0 :
@@ -544,290 +639,6 @@ Proof.
   - unfold p_forbidden. rewrite E. reflexivity.
   - apply negb_true_iff. apply (sweep (fun c => negb (p_forbidden true c)) _ sweep_forb_1_1). lia.
 Qed.
-(* ---- 4. CDATA sections -------------------------------------------------------------------------------- *)
-Definition cd (v11 : bool) (s : list N) := cdata_loop fam_utf16 v11 s false.
-
-Definition split3 (l : list N) : bool :=
-  match l with c :: a :: b :: _ => (c =? 93) && (a =? 93) && (b =? 62) | _ => false end.
-
-Lemma cd_split : forall v11 r,
-  cd v11 (93 :: 93 :: 62 :: r) =
-  (u16_unit 93 ++ u16_unit 93 ++ u16_block s_cdata_close ++ u16_block s_cdata_open ++ u16_unit 62 ++
-   fst (cd v11 r), snd (cd v11 r)).
-Proof.
-  intros v11 r. unfold cd. cbn [cdata_loop].
-  assert (L : longer_than cdata_lookahead_gt (93 :: 93 :: 62 :: r) = true) by reflexivity.
-  rewrite L. change (93 =? 93) with true. change (62 =? 62) with true. cbn [andb]. cbv iota.
-  destruct (cdata_loop fam_utf16 v11 r false) as [its o]. reflexivity.
-Qed.
-
-Lemma cd_plain : forall v11 c r, split3 (c :: r) = false ->
-  cd v11 (c :: r) =
-  if c =? 10 then (u16_block [10] ++ fst (cd v11 r), snd (cd v11 r))
-  else if p_crforbidden v11 c then ([IThrow err_forbidden], false)
-  else (u16_unit c ++ fst (cd v11 r), snd (cd v11 r)).
-Proof.
-  intros v11 c r H. unfold cd. cbn [cdata_loop]. cbv zeta. cbn [f_cdata_char f_newline fam_utf16].
-  assert (P : (if c =? 10
-      then let '(its, o) := cdata_loop fam_utf16 v11 r false in (u16_block [10] ++ its, o)
-      else if p_crforbidden v11 c then ([IThrow err_forbidden], false)
-      else let '(its2, o2) := cdata_loop fam_utf16 v11 r false in (u16_unit c ++ its2, o2)) =
-     (if c =? 10 then (u16_block [10] ++ fst (cdata_loop fam_utf16 v11 r false), snd (cdata_loop fam_utf16 v11 r false))
-  else if p_crforbidden v11 c then ([IThrow err_forbidden], false)
-  else (u16_unit c ++ fst (cdata_loop fam_utf16 v11 r false), snd (cdata_loop fam_utf16 v11 r false)))).
-  { destruct (cdata_loop fam_utf16 v11 r false); reflexivity. }
-  rewrite P. clear P.
-  destruct (c =? 93) eqn:E; [|reflexivity].
-  destruct (longer_than cdata_lookahead_gt (c :: r)); [|reflexivity].
-  destruct r as [|a [|b r'']]; try reflexivity.
-  destruct ((a =? 93) && (b =? 62)) eqn:E2; [|reflexivity].
-  cbn [split3] in H. rewrite E in H. rewrite <- andb_assoc, E2 in H. discriminate.
-Qed.
-
-Definition cdata_ok (v11 : bool) (c : N) : bool :=
-  negb (c =? 13) && negb (v11 && ((c =? 133) || (c =? 8232) || p_crforbidden true c)).
-Definition cdata_guard (v11 : bool) (s : list N) : bool := forallb (cdata_ok v11) s.
-
-Definition eolfree (v11 : bool) (b : N) : bool :=
-  negb (b =? 13) && negb (v11 && ((b =? 133) || (b =? 8232))).
-
-Lemma eol_norm_free : forall v11 bs, forallb (eolfree v11) bs = true -> eol_norm v11 bs = bs.
-Proof.
-  induction bs as [|c r IH]; intros H; [reflexivity|].
-  cbn [forallb] in H. apply andb_true_iff in H. destruct H as [H1 H2].
-  cbn [eol_norm]. unfold eolfree in H1.
-  destruct (c =? 13) eqn:E1; [cbn in H1; lia|].
-  destruct (v11 && ((c =? 133) || (c =? 8232))) eqn:E2; [rewrite andb_false_r in H1; discriminate|].
-  rewrite IH; auto.
-Qed.
-
-Lemma cdata_ok_eolfree : forall v11 c, cdata_ok v11 c = true -> eolfree v11 c = true.
-Proof. intros v11 c H. unfold cdata_ok in H. unfold eolfree. destruct v11; lia. Qed.
-
-(* table sweeps for CDATA *)
-Lemma sweep_crf_1_0 :
-  forallb (fun c => negb (xml_char false c) || negb (p_crforbidden false c)) (upto (sp_last false)) = true.
-Proof. vm_compute. reflexivity. Qed.
-Lemma sweep_crf_1_1 :
-  forallb (fun c => p_crforbidden true c || negb (restricted_char true c)) (upto (sp_last true)) = true.
-Proof. vm_compute. reflexivity. Qed.
-
-Lemma crf_false : forall v11 c, xml_char v11 c = true \/ x_high c = true \/ x_low c = true ->
-  cdata_ok v11 c = true -> p_crforbidden v11 c = false.
-Proof.
-  intros v11 c Hx Hg. destruct v11.
-  - unfold cdata_ok in Hg. lia.
-  - destruct (sp_last false <? c) eqn:E.
-    + unfold p_crforbidden. rewrite E. reflexivity.
-    + destruct Hx as [Hx|Hx].
-      * pose proof (sweep _ _ sweep_crf_1_0 c ltac:(lia)) as H. cbv beta in H. rewrite Hx in H.
-        cbn [negb orb] in H. apply negb_true_iff in H. exact H.
-      * unfold x_high, x_low, x_in, sp_last, last_special_1_0 in *. lia.
-Qed.
-
-Lemma cdata_lit : forall v11 c, xml_char v11 c = true -> cdata_ok v11 c = true -> literal_ok v11 c = true.
-Proof.
-  intros v11 c Hx Hg. unfold literal_ok. rewrite Hx. destruct v11; [|reflexivity].
-  destruct (sp_last true <? c) eqn:E.
-  - unfold restricted_char, x_in, sp_last, last_special_1_1 in *. lia.
-  - pose proof (sweep _ _ sweep_crf_1_1 c ltac:(lia)) as H. cbv beta in H.
-    unfold cdata_ok in Hg. assert (Hc : p_crforbidden true c = false) by lia. rewrite Hc in H.
-    cbn [orb] in H. rewrite H. reflexivity.
-Qed.
-
-(* the reader inside a CDATA section *)
-Lemma scan_cdata_lit : forall v11 c rest f, x_high c = false -> x_low c = false ->
-  literal_ok v11 c = true -> starts_with [93; 93; 62] (c :: rest) = None ->
-  scan_content v11 (S f) true (c :: rest) = option_map (cons c) (scan_content v11 f true rest).
-Proof. intros v11 c rest f H1 H2 H3 H4. cbn [scan_content]. rewrite H4, H1, H2, H3. reflexivity. Qed.
-
-Lemma scan_cdata_pair : forall v11 hi lo rest f, x_high hi = true -> x_low lo = true ->
-  scan_content v11 (S f) true (hi :: lo :: rest) =
-  option_map (fun t => hi :: lo :: t) (scan_content v11 f true rest).
-Proof.
-  intros v11 hi lo rest f Hh Hl. cbn [scan_content starts_with]. rewrite Hh, Hl.
-  unfold x_high, x_in in Hh. destruct (93 =? hi) eqn:E3; [lia|]. reflexivity.
-Qed.
-
-Lemma scan_cdata_split : forall v11 rest f,
-  scan_content v11 (S (S (S (S (S f))))) true
-    ([93; 93] ++ s_cdata_close ++ s_cdata_open ++ 62 :: rest) =
-  option_map (fun t => 93 :: 93 :: 62 :: t) (scan_content v11 f true rest).
-Proof.
-  intros v11 rest f. destruct v11; cbn; destruct (scan_content _ f true rest); reflexivity.
-Qed.
-
-Lemma scan_cdata_close : forall v11 f, scan_content v11 (S (S f)) true [93; 93; 62] = Some [].
-Proof. intros v11 f. reflexivity. Qed.
-
-Lemma firstn_2_1 : forall (a b : list N), firstn 2 a = firstn 2 b -> firstn 1 a = firstn 1 b.
-Proof.
-  intros [|x [|y a]] [|u [|v b]] H; cbn in *; inversion H; reflexivity.
-Qed.
-
-(* a literal ']' is not followed by "]>": the writer splits every "]]>" of the data *)
-Lemma bracket_safe : forall (r body : list N), split3 (93 :: r) = false -> firstn 2 body = firstn 2 r ->
-  starts_with [93; 93; 62] (93 :: body ++ [93; 93; 62]) = None.
-Proof.
-  intros r body Hs Hf. cbn [starts_with]. change (93 =? 93) with true. cbv iota.
-  destruct body as [|x [|y body]]; destruct r as [|u [|v r]]; cbn in Hf; try discriminate; cbn [app].
-  - reflexivity.
-  - destruct (93 =? x); reflexivity.
-  - inversion Hf; subst. cbn [split3] in Hs. change (93 =? 93) with true in Hs. cbn [andb] in Hs.
-    destruct (93 =? u) eqn:E1; [|reflexivity]. destruct (62 =? v) eqn:E2; [|reflexivity]. lia.
-Qed.
-
-Lemma cd_plain_payload : forall v11 c r, split3 (c :: r) = false -> p_crforbidden v11 c = false ->
-  payload (fst (cd v11 (c :: r))) =
-    match payload (fst (cd v11 r)) with Ok y => Ok (c :: y) | Oob => Oob | Thrown k => Thrown k end
-  /\ snd (cd v11 (c :: r)) = snd (cd v11 r).
-Proof.
-  intros v11 c r Hs Hc. rewrite (cd_plain _ _ _ Hs), Hc.
-  destruct (c =? 10) eqn:E; cbn [fst snd].
-  - apply N.eqb_eq in E. subst c. rewrite payload_app, payload_u16_block. split; reflexivity.
-  - rewrite payload_app, payload_u16_unit. split; reflexivity.
-Qed.
-
-Lemma cdata_main : forall v11 n s, (length s <= n)%nat -> wf_text v11 s = true ->
-  cdata_guard v11 s = true ->
-  exists body, payload (fst (cd v11 s)) = Ok body /\ snd (cd v11 s) = false /\
-    forallb (eolfree v11) body = true /\ firstn 2 body = firstn 2 s /\
-    forall f, (length body + 1 < f)%nat -> scan_content v11 f true (body ++ [93; 93; 62]) = Some s.
-Proof.
-  intros v11. induction n as [|n IH]; intros s Hlen Hw Hg.
-  { destruct s; [|cbn in Hlen; lia]. exists []. repeat split; try reflexivity.
-    intros [|[|f]] Hf; cbn in Hf; try lia. reflexivity. }
-  destruct s as [|c r].
-  { exists []. repeat split; try reflexivity. intros [|[|f]] Hf; cbn in Hf; try lia. reflexivity. }
-  destruct (split3 (c :: r)) eqn:Es.
-  - (* "]]>" *)
-    destruct r as [|a [|b r]]; try discriminate. cbn [split3] in Es.
-    assert (c = 93 /\ a = 93 /\ b = 62) as (-> & -> & ->) by lia.
-    assert (Hw' : wf_text v11 r = true).
-    { cbn [wf_text] in Hw. change (x_high 93) with false in Hw. change (x_low 93) with false in Hw.
-      change (x_high 62) with false in Hw. change (x_low 62) with false in Hw. cbv iota in Hw.
-      repeat (apply andb_true_iff in Hw; destruct Hw as [_ Hw]). exact Hw. }
-    assert (Hg' : cdata_guard v11 r = true).
-    { unfold cdata_guard in *. cbn [forallb] in Hg.
-      repeat (apply andb_true_iff in Hg; destruct Hg as [_ Hg]). exact Hg. }
-    destruct (IH r ltac:(cbn [length] in Hlen; lia) Hw' Hg') as (body & Hp & Ho & He & _ & Hsc).
-    exists ([93; 93] ++ s_cdata_close ++ s_cdata_open ++ 62 :: body).
-    rewrite cd_split. cbn [fst snd]. rewrite !payload_app, !payload_u16_unit, !payload_u16_block, Hp.
-    split; [reflexivity|]. split; [exact Ho|]. split.
-    { rewrite !forallb_app. cbn [forallb]. rewrite He. destruct v11; reflexivity. }
-    split; [reflexivity|].
-    intros f Hf. rewrite !app_length in Hf. unfold s_cdata_close, s_cdata_open in Hf. cbn [length] in Hf.
-    do 5 (destruct f as [|f]; [clear -Hf; lia|]).
-    rewrite <- !app_assoc. cbn [app]. 
-    change (93 :: 93 :: s_cdata_close ++ s_cdata_open ++ 62 :: body ++ [93; 93; 62])
-      with ([93; 93] ++ s_cdata_close ++ s_cdata_open ++ 62 :: (body ++ [93; 93; 62])).
-    rewrite scan_cdata_split. rewrite Hsc by (clear -Hf; lia). reflexivity.
-  - cbn [wf_text] in Hw. destruct (x_high c) eqn:Eh.
-    + (* surrogate pair *)
-      destruct r as [|lo r]; [discriminate|]. apply andb_true_iff in Hw. destruct Hw as [El Hw].
-      unfold cdata_guard in Hg. cbn [forallb] in Hg.
-      apply andb_true_iff in Hg. destruct Hg as [Hg1 Hg]. apply andb_true_iff in Hg. destruct Hg as [Hg2 Hg].
-      assert (Es2 : split3 (lo :: r) = false).
-      { destruct r as [|a [|b r]]; try reflexivity. cbn [split3]. unfold x_low, x_in in El. lia. }
-      destruct (IH r ltac:(cbn [length] in Hlen; lia) Hw Hg) as (body & Hp & Ho & He & _ & Hsc).
-      exists (c :: lo :: body).
-      destruct (cd_plain_payload v11 c (lo :: r) Es (crf_false _ _ (or_intror (or_introl Eh)) Hg1)) as [P1 O1].
-      destruct (cd_plain_payload v11 lo r Es2 (crf_false _ _ (or_intror (or_intror El)) Hg2)) as [P2 O2].
-      rewrite P1, P2, Hp, O1, O2. split; [reflexivity|]. split; [exact Ho|]. split.
-      { cbn [forallb]. rewrite He, (cdata_ok_eolfree _ _ Hg1), (cdata_ok_eolfree _ _ Hg2). reflexivity. }
-      split; [reflexivity|].
-      intros [|f] Hf; cbn [length] in Hf; [clear -Hf; lia|]. cbn [app].
-      rewrite scan_cdata_pair by assumption. rewrite Hsc by (clear -Hf; lia). reflexivity.
-    + destruct (x_low c) eqn:El; [discriminate|]. apply andb_true_iff in Hw. destruct Hw as [Hx Hw].
-      unfold cdata_guard in Hg. cbn [forallb] in Hg. apply andb_true_iff in Hg. destruct Hg as [Hg1 Hg].
-      destruct (IH r ltac:(cbn [length] in Hlen; lia) Hw Hg) as (body & Hp & Ho & He & Hfn & Hsc).
-      exists (c :: body).
-      destruct (cd_plain_payload v11 c r Es (crf_false _ _ (or_introl Hx) Hg1)) as [P1 O1].
-      rewrite P1, Hp, O1. split; [reflexivity|]. split; [exact Ho|]. split.
-      { cbn [forallb]. rewrite He, (cdata_ok_eolfree _ _ Hg1). reflexivity. }
-      split.
-      { change (firstn 2 (c :: body)) with (c :: firstn 1 body).
-        change (firstn 2 (c :: r)) with (c :: firstn 1 r). rewrite (firstn_2_1 _ _ Hfn). reflexivity. }
-      intros [|f] Hf; cbn [length] in Hf; [clear -Hf; lia|]. cbn [app].
-      rewrite scan_cdata_lit; auto.
-      * rewrite Hsc by (clear -Hf; lia). reflexivity.
-      * apply cdata_lit; assumption.
-      * destruct (c =? 93) eqn:E93.
-        -- apply N.eqb_eq in E93. subst c. apply (bracket_safe r); assumption.
-        -- cbn [starts_with]. rewrite N.eqb_sym, E93. reflexivity.
-Qed.
-
-Lemma scan_open : forall v11 f rest,
-  scan_content v11 (S f) false (s_cdata_open ++ rest) = scan_content v11 f true rest.
-Proof. reflexivity. Qed.
-
-Theorem cdata_roundtrip_guard : forall v11 s, wf_text v11 s = true -> cdata_guard v11 s = true ->
-  exists bs, payload (write_cdata fam_utf16 v11 s) = Ok bs /\ parse_content v11 bs = Some s.
-Proof.
-  intros v11 s Hw Hg.
-  destruct (cdata_main v11 (length s) s (le_n _) Hw Hg) as (body & Hp & Ho & He & _ & Hsc).
-  exists (s_cdata_open ++ body ++ s_cdata_close). split.
-  - unfold write_cdata. fold (cd v11 s). destruct (cd v11 s) as [its o]. cbn [fst snd] in *. subst o.
-    cbn [f_const fam_utf16]. rewrite !payload_app, !payload_u16_block, Hp. reflexivity.
-  - unfold parse_content. rewrite eol_norm_free.
-    + rewrite scan_open. apply Hsc. rewrite !app_length. unfold s_cdata_open, s_cdata_close.
-      cbn [length]. lia.
-    + rewrite !forallb_app, He. destruct v11; reflexivity.
-Qed.
-
-(* the guard, spelled out *)
-Theorem cdata_roundtrip_partial : forall v11 s, wf_text v11 s = true ->
-  ~ In 13 s ->
-  (v11 = true -> ~ In 133 s /\ ~ In 8232 s /\ forall c, In c s -> p_crforbidden true c = false) ->
-  exists bs, payload (write_cdata fam_utf16 v11 s) = Ok bs /\ parse_content v11 bs = Some s.
-Proof.
-  intros v11 s Hw H13 H11. apply cdata_roundtrip_guard; [exact Hw|].
-  apply forallb_forall. intros c Hc. unfold cdata_ok.
-  assert (E13 : (c =? 13) = false). { apply N.eqb_neq. intros ->. exact (H13 Hc). }
-  rewrite E13. destruct v11; [|reflexivity]. destruct (H11 eq_refl) as (A & B & C).
-  assert (E1 : (c =? 133) = false). { apply N.eqb_neq. intros ->. exact (A Hc). }
-  assert (E2 : (c =? 8232) = false). { apply N.eqb_neq. intros ->. exact (B Hc). }
-  rewrite E1, E2, (C c Hc). reflexivity.
-Qed.
-
-(* the unguarded statement is false: CR in a CDATA section is written literally *)
-Theorem cdata_roundtrip_refuted : forall v11,
-  wf_text v11 [13] = true /\
-  payload (write_cdata fam_utf16 v11 [13]) = Ok (s_cdata_open ++ [13] ++ s_cdata_close) /\
-  parse_content v11 (s_cdata_open ++ [13] ++ s_cdata_close) = Some [10].
-Proof. intros [|]; vm_compute; repeat split; reflexivity. Qed.
-
-Theorem cdata_roundtrip_false :
-  ~ (forall v11 s, wf_text v11 s = true -> s <> [] ->
-       exists bs, payload (write_cdata fam_utf16 v11 s) = Ok bs /\ parse_content v11 bs = Some s).
-Proof.
-  intros H. destruct (H false [13] eq_refl ltac:(discriminate)) as (bs & H1 & H2).
-  destruct (cdata_roundtrip_refuted false) as (_ & P & Q). rewrite P in H1. congruence.
-Qed.
-
-(* the other clauses of the guard are needed too (XML 1.1) *)
-Theorem cdata_nel_refuted :
-  wf_text true [133] = true /\
-  payload (write_cdata fam_utf16 true [133]) = Ok (s_cdata_open ++ [133] ++ s_cdata_close) /\
-  parse_content true (s_cdata_open ++ [133] ++ s_cdata_close) = Some [10].
-Proof. vm_compute; repeat split; reflexivity. Qed.
-
-Theorem cdata_lsep_refuted :
-  wf_text true [8232] = true /\
-  payload (write_cdata fam_utf16 true [8232]) = Ok (s_cdata_open ++ [8232] ++ s_cdata_close) /\
-  parse_content true (s_cdata_open ++ [8232] ++ s_cdata_close) = Some [10].
-Proof. vm_compute; repeat split; reflexivity. Qed.
-
-Theorem cdata_control_1_1_refuted :
-  wf_text true [1] = true /\ payload (write_cdata fam_utf16 true [1]) = Thrown err_forbidden.
-Proof. vm_compute; split; reflexivity. Qed.
-(* ---- 5. known finding K4: a character reference inside a comment ------------------------------------ *)
-(* "<!--&#8364;-->": the 7 units "&#8364;" are comment text for a reader, not U+20AC *)
-Theorem comment_charref_refuted :
-  payload (write_comment (fam_other rep_ascii) false [8364]) =
-  Ok ([60; 33; 45; 45] ++ [38; 35; 56; 51; 54; 52; 59] ++ [45; 45; 62]).
-Proof. vm_compute. reflexivity. Qed.
-
 (* ---- 5. the "other encoding" writer: unrepresentable characters become decimal references ----------- *)
 Lemma digits_rev_digits : forall fuel n, forallb is_digit (digits_rev fuel n) = true.
 Proof.
@@ -973,7 +784,7 @@ Section OtherFamily.
     - assert (v11 = true /\ c = 8232) as [-> ->] by lia.
       exists (ncr F 8232), (charref 8232). split; [reflexivity|]. split; [apply payload_ncr_other|].
       split; apply ref_shape; auto.
-    - unfold F. cbn [f_at fam_other]. unfold o_at, o_at_gen. change (is_high c) with (x_high c). rewrite Hh.
+    - unfold F. cbn [f_at fam_other]. unfold o_at, o_at_gen. change (is_high c) with (x_high c). change (is_low c) with (x_low c). rewrite Hh, Hl.
       destruct (rep c) eqn:Erep.
       + unfold o_code, other_split_gt. destruct (65535 <? c) eqn:E; [lia|].
         eexists. exists [c]. split; [reflexivity|]. split; [reflexivity|].
@@ -1192,3 +1003,544 @@ Theorem content_roundtrip_other_big_refuted :
   payload (write_content (fam_other rep_ascii) false [65536]) = Ok (charref 65536) /\
   parse_content false (charref 65536) = Some [55296; 56320].
 Proof. vm_compute. repeat split; reflexivity. Qed.
+
+(* ---- 4. CDATA sections -------------------------------------------------------------------------------- *)
+(* the output alternates between CDATA sections and character references in plain content; the flag
+   [o] = outsideCDATA *)
+Definition cdl (v11 : bool) (s : list N) (o : bool) := cdata_loop fam_utf16 v11 s o.
+
+Definition split3 (l : list N) : bool :=
+  match l with c :: a :: b :: _ => (c =? 93) && (a =? 93) && (b =? 62) | _ => false end.
+
+(* characters that leave the section and are written as a reference *)
+Definition esc (v11 : bool) (c : N) : bool :=
+  (c =? 13) || (v11 && ((c =? 133) || (c =? 8232) || p_crforbidden v11 c)).
+
+Definition plain16 (v11 : bool) (c : N) (r : list N) (o : bool) : list item * bool :=
+  if c =? 10 then let '(its, o') := cdl v11 r o in (u16_block [10] ++ its, o')
+  else if p_forbidden v11 c then ([IThrow err_forbidden], o)
+  else if esc v11 c then
+    let '(its, o') := cdl v11 r true in
+    ((if o then [] else u16_block s_cdata_close) ++ ncr fam_utf16 c ++ its, o')
+  else
+    let '(its, skip, o1) :=
+      (let '(its, skip) := u16_at c r in ((if o then u16_block s_cdata_open else []) ++ its, skip, false)) in
+    let '(its2, o2) :=
+      if skip then match r with [] => ([], o1) | _ :: r' => cdl v11 r' o1 end else cdl v11 r o1 in
+    (its ++ its2, o2).
+
+Lemma cdl_unfold : forall v11 c r o,
+  cdl v11 (c :: r) o =
+  if split3 (c :: r) then
+    match r with
+    | _ :: _ :: r'' =>
+        let '(its, o') := cdl v11 r'' false in
+        ((if o then u16_block s_cdata_open else []) ++ u16_unit 93 ++ u16_unit 93 ++
+         u16_block s_cdata_close ++ u16_block s_cdata_open ++ u16_unit 62 ++ its, o')
+    | _ => plain16 v11 c r o
+    end
+  else plain16 v11 c r o.
+Proof.
+  intros v11 c r o. unfold cdl. cbn [cdata_loop]. destruct r as [|a [|b r'']].
+  - cbn [split3]. destruct (c =? 93); [destruct (longer_than cdata_lookahead_gt [c])|]; reflexivity.
+  - cbn [split3]. destruct (c =? 93); [destruct (longer_than cdata_lookahead_gt [c; a])|]; reflexivity.
+  - cbn [split3]. change (longer_than cdata_lookahead_gt (c :: a :: b :: r'')) with true.
+    destruct (c =? 93); cbn [andb]; [|reflexivity].
+    destruct ((a =? 93) && (b =? 62)); reflexivity.
+Qed.
+
+Definition eolfree (v11 : bool) (b : N) : bool :=
+  negb (b =? 13) && negb (v11 && ((b =? 133) || (b =? 8232))).
+
+Lemma eol_norm_free : forall v11 bs, forallb (eolfree v11) bs = true -> eol_norm v11 bs = bs.
+Proof.
+  induction bs as [|c r IH]; intros H; [reflexivity|].
+  cbn [forallb] in H. apply andb_true_iff in H. destruct H as [H1 H2].
+  cbn [eol_norm]. unfold eolfree in H1.
+  destruct (c =? 13) eqn:E1; [cbn in H1; lia|].
+  destruct (v11 && ((c =? 133) || (c =? 8232))) eqn:E2; [rewrite andb_false_r in H1; discriminate|].
+  rewrite IH; auto.
+Qed.
+
+Lemma okunit_eolfree : forall v11 l, forallb (okunit v11) l = true -> forallb (eolfree v11) l = true.
+Proof.
+  intros v11 l H. apply forallb_forall. intros x Hx. rewrite forallb_forall in H. specialize (H x Hx).
+  unfold okunit in H. unfold eolfree. destruct v11; lia.
+Qed.
+
+Lemma not_esc_eolfree : forall v11 c, esc v11 c = false -> eolfree v11 c = true.
+Proof. intros v11 c H. unfold esc in H. unfold eolfree. destruct v11; lia. Qed.
+
+(* table sweeps for CDATA *)
+Lemma sweep_crf_1_1 :
+  forallb (fun c => p_crforbidden true c || negb (restricted_char true c)) (upto (sp_last true)) = true.
+Proof. vm_compute. reflexivity. Qed.
+
+Lemma char_not_forbidden : forall v11 c, xml_char v11 c = true -> p_forbidden v11 c = false.
+Proof.
+  intros [|] c Hx; [apply no_forbidden_1_1|]. destruct (sp_last false <? c) eqn:E.
+  - unfold p_forbidden. rewrite E. reflexivity.
+  - rewrite forbidden_iff_not_char_1_0', Hx; [reflexivity|]. unfold sp_last, last_special_1_0 in E. lia.
+Qed.
+
+Lemma cdata_lit : forall v11 c, xml_char v11 c = true -> esc v11 c = false -> literal_ok v11 c = true.
+Proof.
+  intros v11 c Hx Hg. unfold literal_ok. rewrite Hx. destruct v11; [|reflexivity].
+  destruct (sp_last true <? c) eqn:E.
+  - unfold restricted_char, x_in, sp_last, last_special_1_1 in *. lia.
+  - pose proof (sweep _ _ sweep_crf_1_1 c ltac:(lia)) as H. cbv beta in H.
+    unfold esc in Hg. assert (Hc : p_crforbidden true c = false) by lia. rewrite Hc in H.
+    cbn [orb] in H. rewrite H. reflexivity.
+Qed.
+
+Lemma esc_small : forall v11 c, esc v11 c = true -> c < 65536 /\ (c =? 93) = false /\ (c =? 10) = false.
+Proof.
+  intros v11 c H. unfold esc in H. destruct (sp_last v11 <? c) eqn:E.
+  - unfold p_crforbidden in H. rewrite E in H. lia.
+  - assert (B : c <= 159) by (unfold sp_last, last_special_1_0, last_special_1_1 in E; destruct v11; lia).
+    split; [lia|]. destruct (c =? 93) eqn:E93.
+    + apply N.eqb_eq in E93. subst c. destruct v11; vm_compute in H; discriminate.
+    + destruct (c =? 10) eqn:E10; [|auto]. apply N.eqb_eq in E10. subst c. destruct v11; vm_compute in H; discriminate.
+Qed.
+
+Lemma sur_facts : forall v11 c, x_high c = true \/ x_low c = true ->
+  (c =? 10) = false /\ (c =? 93) = false /\ p_forbidden v11 c = false /\ esc v11 c = false /\
+  eolfree v11 c = true.
+Proof.
+  intros v11 c H. destruct (sur_high v11 c H) as (A1 & _ & _). unfold p_range in A1.
+  unfold esc, eolfree, p_forbidden, p_crforbidden. rewrite A1.
+  unfold x_high, x_low, x_in in H. destruct v11; lia.
+Qed.
+
+(* payload and final flag of the loop *)
+Definition cB (v11 : bool) (s : list N) (o : bool) : res (list N) := payload (fst (cdl v11 s o)).
+Definition cO (v11 : bool) (s : list N) (o : bool) : bool := snd (cdl v11 s o).
+
+Definition lift (pre : list N) (r : res (list N)) : res (list N) :=
+  match r with Ok y => Ok (pre ++ y) | Oob => Oob | Thrown k => Thrown k end.
+
+Lemma payload_app_ok : forall a b x, payload a = Ok x -> payload (a ++ b) = lift x (payload b).
+Proof. intros a b x H. rewrite payload_app, H. unfold lift. destruct (payload b); reflexivity. Qed.
+
+Definition opn (o : bool) : list N := if o then s_cdata_open else [].
+
+Lemma cdl_split : forall v11 r o,
+  cB v11 (93 :: 93 :: 62 :: r) o =
+    lift (opn o ++ [93; 93] ++ s_cdata_close ++ s_cdata_open ++ [62]) (cB v11 r false) /\
+  cO v11 (93 :: 93 :: 62 :: r) o = cO v11 r false.
+Proof.
+  intros v11 r o. unfold cB, cO. rewrite cdl_unfold. cbn [split3]. change (93 =? 93) with true.
+  change (62 =? 62) with true. cbn [andb]. cbv iota. destruct (cdl v11 r false) as [its o']. cbn [fst snd].
+  split; [|reflexivity].
+  replace ((if o then u16_block s_cdata_open else []) ++ u16_unit 93 ++ u16_unit 93 ++
+           u16_block s_cdata_close ++ u16_block s_cdata_open ++ u16_unit 62 ++ its)
+    with (((if o then u16_block s_cdata_open else []) ++ u16_unit 93 ++ u16_unit 93 ++
+           u16_block s_cdata_close ++ u16_block s_cdata_open ++ u16_unit 62) ++ its)
+    by (rewrite <- !app_assoc; reflexivity).
+  apply payload_app_ok. rewrite !payload_app, !payload_u16_unit, !payload_u16_block.
+  destruct o; cbn [opn]; rewrite ?payload_u16_block; reflexivity.
+Qed.
+
+Lemma cdl_newline : forall v11 r o,
+  cB v11 (10 :: r) o = lift [10] (cB v11 r o) /\ cO v11 (10 :: r) o = cO v11 r o.
+Proof.
+  intros v11 r o. unfold cB, cO. rewrite cdl_unfold.
+  assert (E : split3 (10 :: r) = false) by (destruct r as [|a [|b r]]; reflexivity).
+  rewrite E. unfold plain16. change (10 =? 10) with true. cbv iota.
+  destruct (cdl v11 r o) as [its o']. cbn [fst snd]. split; [|reflexivity].
+  apply payload_app_ok. apply payload_u16_block.
+Qed.
+
+Lemma payload_ncr16 : forall c, payload (ncr fam_utf16 c) = Ok (charref c).
+Proof.
+  intros c. unfold ncr. cbn [f_unit f_str fam_utf16].
+  rewrite !payload_app, !payload_u16_unit, payload_u16_block. reflexivity.
+Qed.
+
+Definition cls (o : bool) : list N := if o then [] else s_cdata_close.
+
+Lemma cdl_esc : forall v11 c r o, p_forbidden v11 c = false -> esc v11 c = true ->
+  cB v11 (c :: r) o = lift (cls o ++ charref c) (cB v11 r true) /\ cO v11 (c :: r) o = cO v11 r true.
+Proof.
+  intros v11 c r o Hf He. destruct (esc_small _ _ He) as (_ & E93 & E10). unfold cB, cO. rewrite cdl_unfold.
+  assert (E : split3 (c :: r) = false) by (destruct r as [|a [|b r]]; cbn [split3]; rewrite ?E93; reflexivity).
+  rewrite E. unfold plain16. rewrite E10, Hf, He.
+  destruct (cdl v11 r true) as [its o']. cbn [fst snd]. split; [|reflexivity].
+  rewrite app_assoc. apply payload_app_ok. rewrite payload_app, payload_ncr16.
+  destruct o; cbn [cls]; rewrite ?payload_u16_block; reflexivity.
+Qed.
+
+Lemma cdl_ord : forall v11 c r o, split3 (c :: r) = false -> (c =? 10) = false ->
+  p_forbidden v11 c = false -> esc v11 c = false -> x_high c = false -> x_low c = false ->
+  cB v11 (c :: r) o = lift (opn o ++ [c]) (cB v11 r false) /\ cO v11 (c :: r) o = cO v11 r false.
+Proof.
+  intros v11 c r o E E10 Hf He Hh Hl. unfold cB, cO. rewrite cdl_unfold, E. unfold plain16.
+  rewrite E10, Hf, He, (u16_at_plain c r Hh Hl). cbv iota beta.
+  destruct (cdl v11 r false) as [its o']. cbn [fst snd]. split; [|reflexivity].
+  apply payload_app_ok. rewrite payload_app, payload_u16_unit.
+  destruct o; cbn [opn]; rewrite ?payload_u16_block; reflexivity.
+Qed.
+
+Lemma cdl_pair : forall v11 hi lo r o, x_high hi = true -> x_low lo = true ->
+  cB v11 (hi :: lo :: r) o = lift (opn o ++ [hi; lo]) (cB v11 r false) /\
+  cO v11 (hi :: lo :: r) o = cO v11 r false.
+Proof.
+  intros v11 hi lo r o Hh Hl. destruct (sur_facts v11 hi (or_introl Hh)) as (E10 & E93 & Hf & He & _).
+  unfold cB, cO. rewrite cdl_unfold.
+  assert (E : split3 (hi :: lo :: r) = false) by (destruct r as [|b r]; cbn [split3]; rewrite ?E93; reflexivity).
+  rewrite E. unfold plain16. rewrite E10, Hf, He, (u16_at_pair hi lo r Hh Hl). cbv iota beta.
+  destruct (cdl v11 r false) as [its o']. cbn [fst snd]. split; [|reflexivity].
+  apply payload_app_ok. rewrite payload_app. cbn [u16_unit app payload].
+  destruct o; cbn [opn]; rewrite ?payload_u16_block; reflexivity.
+Qed.
+
+(* the reader *)
+Lemma scan_cdata_lit : forall v11 c rest f, x_high c = false -> x_low c = false ->
+  literal_ok v11 c = true -> starts_with [93; 93; 62] (c :: rest) = None ->
+  scan_content v11 (S f) true (c :: rest) = option_map (cons c) (scan_content v11 f true rest).
+Proof. intros v11 c rest f H1 H2 H3 H4. cbn [scan_content]. rewrite H4, H1, H2, H3. reflexivity. Qed.
+
+Lemma scan_cdata_pair : forall v11 hi lo rest f, x_high hi = true -> x_low lo = true ->
+  scan_content v11 (S f) true (hi :: lo :: rest) =
+  option_map (fun t => hi :: lo :: t) (scan_content v11 f true rest).
+Proof.
+  intros v11 hi lo rest f Hh Hl. cbn [scan_content starts_with]. rewrite Hh, Hl.
+  unfold x_high, x_in in Hh. destruct (93 =? hi) eqn:E3; [lia|]. reflexivity.
+Qed.
+
+Lemma scan_cdata_split : forall v11 rest f,
+  scan_content v11 (S (S (S (S (S f))))) true
+    ([93; 93] ++ s_cdata_close ++ s_cdata_open ++ 62 :: rest) =
+  option_map (fun t => 93 :: 93 :: 62 :: t) (scan_content v11 f true rest).
+Proof.
+  intros v11 rest f. destruct v11; cbn; destruct (scan_content _ f true rest); reflexivity.
+Qed.
+
+Lemma scan_open : forall v11 f rest,
+  scan_content v11 (S f) false (s_cdata_open ++ rest) = scan_content v11 f true rest.
+Proof. reflexivity. Qed.
+
+Lemma scan_close : forall v11 f rest,
+  scan_content v11 (S f) true (s_cdata_close ++ rest) = scan_content v11 f false rest.
+Proof. reflexivity. Qed.
+
+Lemma scan_newline : forall v11 f m rest,
+  scan_content v11 (S f) m (10 :: rest) = option_map (cons 10) (scan_content v11 f m rest).
+Proof. intros [|] f [|] rest; reflexivity. Qed.
+
+Lemma scan_ref : forall v11 c rest f, xml_char v11 c = true -> c < 65536 ->
+  scan_content v11 (S f) false (charref c ++ rest) = option_map (cons c) (scan_content v11 f false rest).
+Proof.
+  intros v11 c rest f H1 H2. unfold charref. cbn [app scan_content]. change (38 =? 38) with true. cbv iota.
+  rewrite <- app_assoc. cbn [app]. rewrite parse_ref_charref by exact H1.
+  unfold units_of_cp. destruct (c <? 65536) eqn:E; [|lia]. destruct (scan_content v11 f false rest); reflexivity.
+Qed.
+
+Lemma charref_eolfree : forall v11 n, forallb (eolfree v11) (charref n) = true.
+Proof.
+  intros v11 n. apply okunit_eolfree. unfold charref. cbn [forallb].
+  rewrite forallb_app, (digits_ok v11 _ (decimal_digits n)). destruct v11; reflexivity.
+Qed.
+
+Lemma charref_length : forall n, (2 <= length (charref n))%nat.
+Proof. intros n. unfold charref. cbn [length]. lia. Qed.
+
+(* first units of what follows a literal ']' *)
+Definition st1 (l : list N) : bool := match l with a :: _ => a =? 62 | [] => false end.
+Definition st2 (l : list N) : bool :=
+  match l with a :: b :: _ => (a =? 93) && (b =? 62) | _ => false end.
+
+Lemma st2_cons : forall c l, st2 (c :: l) = (c =? 93) && st1 l.
+Proof. intros c [|b l]; cbn [st2 st1]; [rewrite andb_false_r|]; reflexivity. Qed.
+
+Lemma bracket_safe : forall c K, ((c =? 93) && st2 K) = false -> starts_with [93; 93; 62] (c :: K) = None.
+Proof.
+  intros c K H. cbn [starts_with]. rewrite (N.eqb_sym 93 c). destruct (c =? 93); [|reflexivity].
+  cbn [andb] in H. destruct K as [|a [|b K]]; [reflexivity| |].
+  - destruct (93 =? a); reflexivity.
+  - cbn [st2] in H. rewrite (N.eqb_sym 93 a), (N.eqb_sym 62 b). destruct (a =? 93); [|reflexivity].
+    cbn [andb] in H. rewrite H. reflexivity.
+Qed.
+
+Definition inv (s K : list N) : Prop := (st1 K = true -> st1 s = true) /\ (st2 K = true -> st2 s = true).
+
+Lemma inv_head : forall s c K, (c =? 62) = false -> (c =? 93) = false -> inv s (c :: K).
+Proof.
+  intros s c K H1 H2. split; intros H; exfalso.
+  - cbn [st1] in H. congruence.
+  - rewrite st2_cons, H2 in H. discriminate.
+Qed.
+
+Lemma cdata_main : forall v11 n s o, (length s <= n)%nat -> wf_text v11 s = true ->
+  exists body, cB v11 s o = Ok body /\ forallb (eolfree v11) body = true /\
+    (o = false -> inv s (body ++ cls (cO v11 s o))) /\
+    forall f, (length body + 1 < f)%nat ->
+      scan_content v11 f (negb o) (body ++ cls (cO v11 s o)) = Some s.
+Proof.
+  intros v11. induction n as [|n IH]; intros s o Hlen Hw.
+  { destruct s; [|cbn in Hlen; lia]. exists []. split; [reflexivity|]. split; [reflexivity|].
+    split; [intros ->; split; intros H; discriminate H|].
+    intros f Hf. destruct o; destruct f as [|[|f]]; cbn in Hf; try lia; reflexivity. }
+  destruct s as [|c r].
+  { exists []. split; [reflexivity|]. split; [reflexivity|].
+    split; [intros ->; split; intros H; discriminate H|].
+    intros f Hf. destruct o; destruct f as [|[|f]]; cbn in Hf; try lia; reflexivity. }
+  destruct (split3 (c :: r)) eqn:Es.
+  - (* "]]>" *)
+    destruct r as [|a [|b r]]; try discriminate. cbn [split3] in Es.
+    assert (c = 93 /\ a = 93 /\ b = 62) as (-> & -> & ->) by lia.
+    assert (Hw' : wf_text v11 r = true).
+    { cbn [wf_text] in Hw. change (x_high 93) with false in Hw. change (x_low 93) with false in Hw.
+      change (x_high 62) with false in Hw. change (x_low 62) with false in Hw. cbv iota in Hw.
+      repeat (apply andb_true_iff in Hw; destruct Hw as [_ Hw]). exact Hw. }
+    destruct (IH r false ltac:(cbn [length] in Hlen; lia) Hw') as (body & Hp & He & _ & Hsc).
+    destruct (cdl_split v11 r o) as [PB PO]. rewrite PB, PO, Hp. cbn [lift].
+    eexists. split; [reflexivity|]. split.
+    { rewrite !forallb_app, He. destruct o, v11; reflexivity. }
+    split.
+    { intros ->. cbn [opn app]. split; intros H; discriminate H. }
+    intros f Hf. rewrite !app_length in Hf. unfold s_cdata_close, s_cdata_open in Hf. cbn [length] in Hf.
+    rewrite <- !app_assoc.
+    destruct o; cbn [opn negb].
+    + destruct f as [|f]; [clear -Hf; lia|]. rewrite scan_open.
+      do 5 (destruct f as [|f]; [clear -Hf; cbn [length] in Hf; lia|]).
+      change ([62] ++ body ++ cls (cO v11 r false)) with (62 :: body ++ cls (cO v11 r false)).
+      rewrite scan_cdata_split. rewrite Hsc by (clear -Hf; cbn [length] in Hf; lia). reflexivity.
+    + cbn [app]. do 5 (destruct f as [|f]; [clear -Hf; cbn [length] in Hf; lia|]).
+      change (93 :: 93 :: s_cdata_close ++ s_cdata_open ++ 62 :: body ++ cls (cO v11 r false))
+        with ([93; 93] ++ s_cdata_close ++ s_cdata_open ++ 62 :: (body ++ cls (cO v11 r false))).
+      rewrite scan_cdata_split. rewrite Hsc by (clear -Hf; cbn [length] in Hf; lia). reflexivity.
+  - cbn [wf_text] in Hw. destruct (x_high c) eqn:Eh.
+    + (* surrogate pair *)
+      destruct r as [|lo r]; [discriminate|]. apply andb_true_iff in Hw. destruct Hw as [El Hw].
+      destruct (IH r false ltac:(cbn [length] in Hlen; lia) Hw) as (body & Hp & He & _ & Hsc).
+      destruct (cdl_pair v11 c lo r o Eh El) as [PB PO]. rewrite PB, PO, Hp. cbn [lift].
+      destruct (sur_facts v11 c (or_introl Eh)) as (_ & E93 & _ & _ & F1).
+      destruct (sur_facts v11 lo (or_intror El)) as (_ & _ & _ & _ & F2).
+      eexists. split; [reflexivity|]. split.
+      { rewrite !forallb_app. cbn [forallb]. rewrite He, F1, F2. destruct o, v11; reflexivity. }
+      split.
+      { intros ->. cbn [opn app]. split; intros H; exfalso.
+        - cbn [st1] in H. unfold x_high, x_in in Eh. lia.
+        - cbn [st2] in H. rewrite E93 in H. discriminate. }
+      intros f Hf. rewrite !app_length in Hf. cbn [length] in Hf. rewrite <- !app_assoc.
+      destruct o; cbn [opn negb].
+      * cbn [opn] in Hf. unfold s_cdata_open in Hf. cbn [length] in Hf.
+        destruct f as [|f]; [clear -Hf; lia|]. rewrite scan_open.
+        destruct f as [|f]; [clear -Hf; lia|]. cbn [app].
+        rewrite scan_cdata_pair by assumption. rewrite Hsc by (clear -Hf; lia). reflexivity.
+      * destruct f as [|f]; [clear -Hf; lia|]. cbn [app].
+        rewrite scan_cdata_pair by assumption. rewrite Hsc by (clear -Hf; cbn [length] in Hf; lia). reflexivity.
+    + destruct (x_low c) eqn:El; [discriminate|]. apply andb_true_iff in Hw. destruct Hw as [Hx Hw].
+      pose proof (char_not_forbidden _ _ Hx) as Hnf.
+      destruct (c =? 10) eqn:E10.
+      { (* line feed: the flag is kept *)
+        apply N.eqb_eq in E10. subst c.
+        destruct (IH r o ltac:(cbn [length] in Hlen; lia) Hw) as (body & Hp & He & _ & Hsc).
+        destruct (cdl_newline v11 r o) as [PB PO]. rewrite PB, PO, Hp. cbn [lift].
+        eexists. split; [reflexivity|]. split.
+        { cbn [app forallb]. rewrite He. destruct v11; reflexivity. }
+        split.
+        { intros _. apply (inv_head _ 10 (body ++ cls (cO v11 r o))); reflexivity. }
+        intros f Hf. cbn [app length] in Hf. destruct f as [|f]; [clear -Hf; lia|]. cbn [app].
+        rewrite scan_newline. rewrite Hsc by (clear -Hf; lia). reflexivity. }
+      destruct (esc v11 c) eqn:Ee.
+      { (* leave the section, reference *)
+        destruct (IH r true ltac:(cbn [length] in Hlen; lia) Hw) as (body & Hp & He & _ & Hsc).
+        destruct (cdl_esc v11 c r o Hnf Ee) as [PB PO]. rewrite PB, PO, Hp. cbn [lift].
+        destruct (esc_small _ _ Ee) as (Hsm & _ & _).
+        eexists. split; [reflexivity|]. split.
+        { rewrite !forallb_app, He, charref_eolfree. destruct o, v11; reflexivity. }
+        split.
+        { intros ->. cbn [cls]. unfold s_cdata_close. cbn [app]. split; intros H; discriminate H. }
+        intros f Hf. rewrite !app_length in Hf. pose proof (charref_length c) as Hcl.
+        rewrite <- !app_assoc. cbn [negb] in Hsc.
+        destruct o; cbn [cls negb].
+        * cbn [app]. destruct f as [|f]; [clear -Hf; lia|].
+          rewrite scan_ref by assumption. rewrite Hsc by (clear -Hf Hcl; cbn [length] in Hf; lia). reflexivity.
+        * destruct f as [|f]; [clear -Hf; lia|]. rewrite scan_close.
+          destruct f as [|f]; [clear -Hf Hcl; unfold s_cdata_close in Hf; cbn [length] in Hf; lia|].
+          rewrite scan_ref by assumption.
+          rewrite Hsc by (clear -Hf Hcl; unfold s_cdata_close in Hf; cbn [length] in Hf; lia). reflexivity. }
+      (* an ordinary character, inside a section *)
+      destruct (IH r false ltac:(cbn [length] in Hlen; lia) Hw) as (body & Hp & He & Hinv & Hsc).
+      destruct (cdl_ord v11 c r o Es E10 Hnf Ee Eh El) as [PB PO]. rewrite PB, PO, Hp. cbn [lift].
+      destruct (Hinv eq_refl) as [I1 I2].
+      assert (Hsafe : starts_with [93; 93; 62] (c :: body ++ cls (cO v11 r false)) = None).
+      { apply bracket_safe. destruct (c =? 93) eqn:E93; [|reflexivity]. cbn [andb].
+        destruct (st2 (body ++ cls (cO v11 r false))) eqn:E2; [|reflexivity].
+        specialize (I2 eq_refl). apply N.eqb_eq in E93. subst c.
+        destruct r as [|a [|b r]]; cbn [st2] in I2; try discriminate.
+        cbn [split3] in Es. change (93 =? 93) with true in Es. cbn [andb] in Es. congruence. }
+      eexists. split; [reflexivity|]. split.
+      { rewrite !forallb_app. cbn [forallb]. rewrite He, (not_esc_eolfree _ _ Ee). destruct o, v11; reflexivity. }
+      split.
+      { intros ->. cbn [opn app]. split; intros H.
+        - exact H.
+        - rewrite st2_cons in *. apply andb_true_iff in H. destruct H as [H1 H2].
+          rewrite H1, (I1 H2). reflexivity. }
+      intros f Hf. rewrite !app_length in Hf. cbn [length] in Hf. rewrite <- !app_assoc.
+      destruct o; cbn [opn negb].
+      * cbn [opn] in Hf. unfold s_cdata_open in Hf. cbn [length] in Hf.
+        destruct f as [|f]; [clear -Hf; lia|]. rewrite scan_open.
+        destruct f as [|f]; [clear -Hf; lia|]. cbn [app].
+        rewrite scan_cdata_lit; auto using cdata_lit. rewrite Hsc by (clear -Hf; lia). reflexivity.
+      * destruct f as [|f]; [clear -Hf; lia|]. cbn [app].
+        rewrite scan_cdata_lit; auto using cdata_lit.
+        rewrite Hsc by (clear -Hf; cbn [length] in Hf; lia). reflexivity.
+Qed.
+
+Theorem cdata_roundtrip : forall v11 s, wf_text v11 s = true ->
+  exists bs, payload (write_cdata fam_utf16 v11 s) = Ok bs /\ parse_content v11 bs = Some s.
+Proof.
+  intros v11 s Hw.
+  destruct (cdata_main v11 (length s) s false (le_n _) Hw) as (body & Hp & He & _ & Hsc).
+  exists (s_cdata_open ++ body ++ cls (cO v11 s false)). split.
+  - unfold write_cdata. unfold cB, cO, cdl in *. destruct (cdata_loop fam_utf16 v11 s false) as [its o].
+    cbn [fst snd] in *. cbn [f_const fam_utf16]. rewrite !payload_app, payload_u16_block, Hp.
+    destruct o; cbn [cls]; rewrite ?payload_u16_block; reflexivity.
+  - unfold parse_content. rewrite eol_norm_free.
+    + rewrite scan_open. apply Hsc. rewrite !app_length. unfold s_cdata_open. cbn [length]. lia.
+    + rewrite !forallb_app, He. destruct (cO v11 s false), v11; reflexivity.
+Qed.
+
+(* XML 1.1, "a" CR "]]>" U+0001 "b":
+   <![CDATA[a]]>&#13;<![CDATA[]]]]><![CDATA[>]]>&#1;<![CDATA[b]]> *)
+Theorem cdata_mixed_instance :
+  payload (write_cdata fam_utf16 true [97; 13; 93; 93; 62; 1; 98]) =
+    Ok (s_cdata_open ++ [97] ++ s_cdata_close ++ charref 13 ++
+        s_cdata_open ++ [93; 93] ++ s_cdata_close ++ s_cdata_open ++ [62] ++ s_cdata_close ++ charref 1 ++
+        s_cdata_open ++ [98] ++ s_cdata_close) /\
+  parse_content true
+       (s_cdata_open ++ [97] ++ s_cdata_close ++ charref 13 ++
+        s_cdata_open ++ [93; 93] ++ s_cdata_close ++ s_cdata_open ++ [62] ++ s_cdata_close ++ charref 1 ++
+        s_cdata_open ++ [98] ++ s_cdata_close) = Some [97; 13; 93; 93; 62; 1; 98].
+Proof. vm_compute. split; reflexivity. Qed.
+
+(* ---- 6. comments ---------------------------------------------------------------------------------------- *)
+(* an unrepresentable character in a comment is an exception, not a reference *)
+Theorem comment_unrepresentable_fails :
+  payload (write_comment (fam_other rep_ascii) false [120; 8364]) = Thrown err_unrepresentable.
+Proof. vm_compute. reflexivity. Qed.
+
+Lemma payload_app_inv : forall a b z, payload (a ++ b) = Ok z ->
+  exists x y, payload a = Ok x /\ payload b = Ok y /\ z = x ++ y.
+Proof.
+  intros a b z H. rewrite payload_app in H. destruct (payload a) as [x| |]; try discriminate.
+  destruct (payload b) as [y| |]; try discriminate. exists x, y. repeat split. congruence.
+Qed.
+
+Lemma sur_paired_app_cons : forall n a c r, (length a <= n)%nat -> x_high c = false -> x_low c = false ->
+  sur_paired (a ++ c :: r) = sur_paired a && sur_paired r.
+Proof.
+  induction n as [|n IH]; intros a c r Hlen Hh Hl.
+  { destruct a; [|cbn in Hlen; lia]. cbn [app sur_paired]. rewrite Hh, Hl. reflexivity. }
+  destruct a as [|x a]; [cbn [app sur_paired]; rewrite Hh, Hl; reflexivity|].
+  cbn [app sur_paired]. destruct (x_high x).
+  - destruct a as [|lo a]; cbn [app]; [rewrite Hl; reflexivity|].
+    rewrite IH by (cbn [length] in Hlen; lia || assumption). rewrite andb_assoc. reflexivity.
+  - destruct (x_low x); [reflexivity|]. apply IH; auto. cbn [length] in Hlen. lia.
+Qed.
+
+Lemma small_app : forall a b, small (a ++ b) = small a && small b.
+Proof. intros a b. unfold small. apply forallb_app. Qed.
+
+Lemma u16_chars_paired : forall l, sur_paired l = true -> payload (u16_chars l) = Ok l.
+Proof.
+  apply sur_paired_ind'.
+  - reflexivity.
+  - intros hi lo r Hh Hl _ IH. unfold u16_chars in *. cbn [at_loop]. rewrite (u16_at_pair hi lo r Hh Hl).
+    rewrite payload_app, IH. reflexivity.
+  - intros c r Hh Hl _ IH. unfold u16_chars in *. cbn [at_loop]. rewrite (u16_at_plain c r Hh Hl).
+    rewrite payload_app, IH. reflexivity.
+Qed.
+
+Lemma normalized_loop_16 : forall v11 l run_rev, sur_paired (rev run_rev ++ l) = true ->
+  (forall c, In c l -> p_crforbidden v11 c = false) ->
+  payload (normalized_loop fam_utf16 v11 l run_rev) = Ok (rev run_rev ++ l).
+Proof.
+  intros v11. induction l as [|c r IH]; intros run_rev Hp Hc.
+  - cbn [normalized_loop f_comment fam_utf16]. rewrite app_nil_r in *. apply u16_chars_paired. exact Hp.
+  - cbn [normalized_loop]. destruct (c =? 10) eqn:E10.
+    + apply N.eqb_eq in E10. subst c.
+      rewrite (sur_paired_app_cons (length (rev run_rev))) in Hp by (reflexivity || apply le_n).
+      apply andb_true_iff in Hp. destruct Hp as [P1 P2].
+      cbn [f_comment f_newline fam_utf16]. rewrite !payload_app, (u16_chars_paired _ P1), payload_u16_block.
+      rewrite (IH [] P2) by (intros x Hx; apply Hc; right; exact Hx). reflexivity.
+    + rewrite (Hc c (or_introl eq_refl)). rewrite IH.
+      * cbn [rev]. rewrite <- app_assoc. reflexivity.
+      * cbn [rev]. rewrite <- app_assoc. exact Hp.
+      * intros x Hx. apply Hc. right. exact Hx.
+Qed.
+
+Theorem comment_verbatim : forall v11 s, wf_text v11 s = true ->
+  (forall c, In c s -> p_crforbidden v11 c = false) ->
+  payload (write_comment fam_utf16 v11 s) = Ok ([60; 33; 45; 45] ++ s ++ [45; 45; 62]).
+Proof.
+  intros v11 s Hw Hc. unfold write_comment, write_normalized_data. rewrite !payload_app.
+  rewrite (normalized_loop_16 v11 s [] (wf_text_paired _ _ Hw) Hc). reflexivity.
+Qed.
+
+Section CommentOther.
+  Variable rep : N -> bool.
+  Hypothesis rep_low : forall c, c < 128 -> rep c = true.
+
+  Lemma o_name_ok : forall l, sur_paired l = true -> small l = true ->
+    forall x, payload (o_name rep l) = Ok x -> x = l.
+  Proof.
+    apply (sur_paired_ind' (fun l => small l = true -> forall x, payload (o_name rep l) = Ok x -> x = l)).
+    - intros _ x H. cbn in H. congruence.
+    - intros hi lo r Hh Hl _ IH Hsm x H. unfold small in Hsm. cbn [forallb] in Hsm.
+      apply andb_true_iff in Hsm. destruct Hsm as [_ Hsm]. apply andb_true_iff in Hsm. destruct Hsm as [_ Hsm].
+      unfold o_name in *. cbn [at_loop] in H. unfold o_at_name at 1, o_at_gen in H.
+      change (is_high hi) with (x_high hi) in H. change (is_low lo) with (x_low lo) in H.
+      rewrite Hh, Hl in H. destruct (rep (decode_pair hi lo)).
+      + apply payload_app_inv in H. destruct H as (a & b & Ha & Hb & ->).
+        rewrite (payload_o_code_pair rep rep_low hi lo Hh Hl) in Ha. injection Ha as <-. rewrite (IH Hsm b Hb). reflexivity.
+      + cbn in H. discriminate.
+    - intros c r Hh Hl _ IH Hsm x H. unfold small in Hsm. cbn [forallb] in Hsm.
+      apply andb_true_iff in Hsm. destruct Hsm as [Hc Hsm].
+      unfold o_name in *. cbn [at_loop] in H. unfold o_at_name at 1, o_at_gen in H.
+      change (is_high c) with (x_high c) in H. change (is_low c) with (x_low c) in H.
+      rewrite Hh, Hl in H. destruct (rep c).
+      + apply payload_app_inv in H. destruct H as (a & b & Ha & Hb & ->).
+        unfold o_code, other_split_gt in Ha. destruct (65535 <? c) eqn:E; [lia|].
+        cbn in Ha. injection Ha as <-. rewrite (IH Hsm b Hb). reflexivity.
+      + cbn in H. discriminate.
+  Qed.
+
+  Lemma normalized_loop_other : forall v11 l run_rev bs,
+    sur_paired (rev run_rev ++ l) = true -> small (rev run_rev ++ l) = true ->
+    payload (normalized_loop (fam_other rep) v11 l run_rev) = Ok bs -> bs = rev run_rev ++ l.
+  Proof.
+    intros v11. induction l as [|c r IH]; intros run_rev bs Hp Hs H.
+    - cbn [normalized_loop f_comment fam_other] in H. rewrite app_nil_r in *. apply o_name_ok; assumption.
+    - cbn [normalized_loop] in H. destruct (c =? 10) eqn:E10.
+      + apply N.eqb_eq in E10. subst c.
+        rewrite (sur_paired_app_cons (length (rev run_rev))) in Hp by (reflexivity || apply le_n).
+        apply andb_true_iff in Hp. destruct Hp as [P1 P2].
+        rewrite small_app in Hs. apply andb_true_iff in Hs. destruct Hs as [S1 S2].
+        unfold small in S2. cbn [forallb] in S2. apply andb_true_iff in S2. destruct S2 as [_ S2].
+        cbn [f_comment f_newline fam_other] in H.
+        apply payload_app_inv in H. destruct H as (a & b & Ha & Hb & ->).
+        apply payload_app_inv in Hb. destruct Hb as (b1 & b2 & Hb1 & Hb2 & ->).
+        rewrite (payload_o_str rep rep_low [10] eq_refl) in Hb1. injection Hb1 as <-.
+        rewrite (o_name_ok _ P1 S1 a Ha). rewrite (IH [] b2 P2 S2 Hb2). reflexivity.
+      + destruct (p_crforbidden v11 c); [cbn in H; discriminate|].
+        rewrite (IH (c :: run_rev) bs); cbn [rev]; rewrite <- ?app_assoc; auto.
+  Qed.
+End CommentOther.
+
+(* whenever the other-encoding writer succeeds on a comment, the output is the data itself *)
+Theorem comment_never_writes_a_reference : forall rep v11 s bs, (forall c, c < 128 -> rep c = true) ->
+  payload (write_comment (fam_other rep) v11 s) = Ok bs -> wf_text v11 s = true -> small s = true ->
+  bs = [60; 33; 45; 45] ++ s ++ [45; 45; 62].
+Proof.
+  intros rep v11 s bs Hrep H Hw Hs. unfold write_comment, write_normalized_data in H.
+  apply payload_app_inv in H. destruct H as (a & b & Ha & Hb & ->).
+  apply payload_app_inv in Hb. destruct Hb as (b1 & b2 & Hb1 & Hb2 & ->).
+  assert (U : forall l, forallb (fun x => x <? 128) l = true -> payload (units (fam_other rep) l) = Ok l).
+  { intros l Hl. exact (payload_o_str rep Hrep l Hl). }
+  rewrite U in Ha by reflexivity. rewrite U in Hb2 by reflexivity. injection Ha as <-. injection Hb2 as <-.
+  rewrite (normalized_loop_other rep Hrep v11 s [] b1 (wf_text_paired _ _ Hw) Hs Hb1). reflexivity.
+Qed.
